@@ -78,16 +78,16 @@ def children_requests(run):
     out = []
     base = [spec.encode(0, f, ()) for f in range(12)]
     picks = [(0, 8)] + [(b, 9) for b in (base if not run.quick else rng.sample(base, 4))] + [(b, 8) for b in rng.sample(base, 3)]
-    # (per quintant-level cell the fan-out stays <= 4^11: at 4^12 the model's non-tail recursion overflows the driver's stack)
-    picks += [(spec.encode(1, rng.randrange(60), ()), R) for R in (10, 11, 12)]
-    for d in ((9, 10, 11) if run.quick else (9, 10, 11, 11)):
+    picks += [(spec.encode(1, rng.randrange(60), ()), R) for R in ((10, 11, 12) if run.quick else (10, 11, 12, 13))]
+    for d in ((9, 10, 11) if run.quick else (9, 10, 11, 12)):
         r = rng.randint(2, 29 - d)
         picks.append((gen.rand_cell(rng, r), r + d))
     if not run.quick:
         picks += [(0, 9), (rng.choice(base), 11), (rng.choice(base), 12)]
-        # (results of 6e7 ids - 4^13 children of one cell, the world cell at resolution 11 - were tried and withdrawn: the model
-        #  process handles each of them alone in 80 s but stalls when several follow one another in one stream; the largest single
-        #  result explored is 5 * 4^11 = 2.1e7 ids, 4^11 per quintant-level cell)
+        r = rng.randint(1, 16)
+        picks.append((gen.rand_cell(rng, r), r + 13))          # 4^13 = 6.7e7 ids (512 MiB): the largest single result explored
+        picks.append((0, 11))                                  # ... and 60 * 4^10 = 6.3e7 ids across all quintant blocks
+        picks.append((rng.choice(base), 13))                   # ... and 5 * 4^12 = 8.4e7 ids from a base cell
     for c, R in picks:
         out.append((f"digest cell_to_children {c} {R}", expected_digest([c], R)))
     return out
@@ -103,12 +103,12 @@ def uncompact_requests(run):
         cells = [gen.rand_cell(rng, r) for _ in range(k)]
         out.append((f"digest uncompact {compactgen.fmt(cells)} {R}", expected_digest(cells, R)))
     if not run.quick:
-        # one cell expanded by 11 levels (4.2e6 results): a quintant and a deeper cell in a non-canonical spelling
+        # one cell expanded by 13 levels (6.7e7 results, 512 MiB): a quintant and a deeper cell in a non-canonical spelling
         qn = spec.encode(1, rng.randrange(60), ())
-        out.append((f"digest uncompact {qn} 12", expected_digest([qn], 12)))
+        out.append((f"digest uncompact {qn} 14", expected_digest([qn], 14)))
         r = rng.randint(2, 16)
         c = gen.rand_cell(rng, r)
-        out.append((f"digest uncompact {c | (1 << (2 * rng.randrange(0, (59 - 2 * r) // 2 + 1)))} {r + 11}", expected_digest([c], r + 11)))
+        out.append((f"digest uncompact {c | (1 << (2 * rng.randrange(0, (59 - 2 * r) // 2 + 1)))} {r + 13}", expected_digest([c], r + 13)))
     # mixed resolutions (4 coarse + 7 fine, and cells already at the target in between)
     for _ in range(2 if run.quick else 6):
         R = rng.randint(12, 20)
@@ -299,7 +299,7 @@ def check(run, items, label, profiles=("release",), count_only=False):
     """run the requests through implementation and model, compare the digests with each other and with the expected length / sum / xor"""
     from . import core
     reqs = [q for q, _ in items]
-    impl, model = core.both(run, reqs, label, reorder=False, timeout=1500, mem_bytes=32 << 30)
+    impl, model = core.both(run, reqs, label, reorder=False, timeout=2400, mem_bytes=40 << 30)
     for prof in profiles:
         if prof == "release":
             continue
